@@ -17,7 +17,7 @@ import json, os, subprocess, sys, time, hashlib
 from concurrent.futures import ThreadPoolExecutor
 import vbuild
 
-VERIF = os.environ.get("VERIF_DIR", "/verif")
+VERIF = os.environ.get("VERIF_DIR") or os.path.dirname(os.path.dirname(os.path.abspath(__file__)))
 FAMILIES = ["C01", "C02", "C03", "C05", "C07", "C08", "C12", "C14"]
 CONFIGS_QUICK = [
     ((), "release"),
